@@ -491,7 +491,8 @@ def draw_network(
     # this assumes that nodes are identified by an integer
     # which is true for default nx graphs but might user changeable
     pos = np.asarray(list(pos.values()))
-    arguments["loc"] = pos[arguments["loc"]]
+    if len(arguments["loc"]) > 0:
+        arguments["loc"] = pos[arguments["loc"]]
 
     # plot the agents
     _scatter(ax, arguments, **kwargs)
@@ -629,6 +630,9 @@ def _scatter(ax: Axes, arguments, **kwargs):
 
     """
     loc = arguments.pop("loc")
+    if len(loc) == 0:
+        # no agents in the space: nothing to plot
+        return
 
     x = loc[:, 0]
     y = loc[:, 1]
